@@ -440,3 +440,148 @@ REGISTRY = {
         explanation="18446744073709551557 is prime and nothing above it below 2^64 is (Lucas certificate + 58 explicit "
                     "factors); the iterator returns it and then reports primesieve_error forever; checkedAdd/checkedSub saturate"),
 }
+
+
+# --------------------------------------------------------------------------------------------
+# allocation-fault enumeration and memory ledger (psv_alloc binary)
+# --------------------------------------------------------------------------------------------
+from . import gstream as _g
+
+def _alloc_ctx(ctx, tie_fail):
+    a, aerr = build.build_alloc_harness(ctx.repo_build)
+    if aerr:
+        tie_fail.append(("build of psv_alloc", aerr[-1500:], None))
+        return None
+    return dataclasses.replace(ctx, harness=a)
+
+def fiter_tie(ctx, tie_fail):
+    c2 = _alloc_ctx(ctx, tie_fail)
+    return streams.FITER.tie(c2, tie_fail) if c2 else {"evaluations": 0, "distinct_nontrivial": 0}
+
+def wl_tie(ctx, tie_fail):
+    """phase 1: run every workload undisturbed and read its allocation count N;
+    phase 2: fail allocation k for every k in 1..N (and pairs k, k+gap)"""
+    c2 = _alloc_ctx(ctx, tie_fail)
+    if not c2:
+        return {"evaluations": 0, "distinct_nontrivial": 0}
+    r = rng("wl-" + ctx.prop)
+    ops0 = [("undisturbed", f"wl {w} 0") for w in streams.WORKLOADS]
+    res0 = _g.run_stream(c2.harness, None, "wl", ops0, ctx.workdir, "wl0")
+    counts = {}
+    for line in res0["impl_lines"]:
+        f = stream_iter.parse_fields(line.split(" => ", 1)[-1])
+        w = line.split()[1]
+        counts[w] = int(f.get("allocs", 0))
+    ops = list(ops0)
+    for w, n in counts.items():
+        ks = list(range(1, n + 1))
+        if len(ks) > 80 and ctx.tier == "quick":
+            ks = sorted(r.sample(ks, 80))
+        for k in ks:
+            ops.append((f"fail-{w}", f"wl {w} {k}"))
+    S = _g.Stream("wl", lambda tier, rr: ops,
+                  rule=("cases = workload x k: iterator forward/backward (C++ and C), count_primes with 1 and 4 threads, "
+                        "count_twins, C count, generate_primes / generate_n_primes (C++ and C), nth_prime, print_primes, each run "
+                        "with its k-th operator new failing for EVERY k up to the workload's allocation count (read from an "
+                        "undisturbed run); checked: error reported (bad_alloc / primesieve_error / C error return with errno=EDOM), "
+                        "never a wrong value, exact prefix for vectors, no leak in the operator-new ledger, objects reusable; "
+                        "non-trivial = the failure fired; distinct by (workload, k)"),
+                  nontrivial=lambda o, obs: "fired=1" in obs, use_model=False)
+    cov = S.tie(c2, tie_fail)
+    cov["allocation_counts"] = counts
+    return cov
+
+def wl_witness(ctx, obligations_failed, tie_fail):
+    tf = []
+    wl_tie(ctx, tf)
+    hit = [t for t in tf if t[2] is not None]
+    return hit[0] if hit else None
+
+def mem_tie(ctx, tie_fail):
+    """peak heap bytes for intervals of growing length at fixed magnitude; bound and growth checks"""
+    import math
+    c2 = _alloc_ctx(ctx, tie_fail)
+    if not c2:
+        return {"evaluations": 0, "distinct_nontrivial": 0}
+    q = ctx.tier == "quick"
+    ops = []
+    lens = [10**6, 10**7, 10**8] if q else [10**6, 10**7, 10**8, 10**9]
+    for wl, start, kib, th in [("count", 10**10, 16, 1), ("count", 10**12, 64, 4), ("iterfwd", 10**10, 256, 1),
+                               ("iterbwd", 10**10, 256, 1), ("citerfwd", 10**9, 256, 1)] + ([] if q else [("iterbwd", 10**12, 256, 1), ("count", 10**14, 256, 8)]):
+        for L in lens:
+            if wl != "count" and L > 10**8 and q:
+                continue
+            s0 = start - L if wl == "iterbwd" else start
+            ops.append((f"{wl}@{start}", f"mem {wl} {s0} {L} {kib} {th}"))
+    res = _g.run_stream(c2.harness, None, "mem", ops, ctx.workdir, "mem", timeout=7200)
+    wrong, _, cov = _g.analyse(ops, res)
+    cov["rule"] = ("cases = (workload, start, interval length L, sieve KiB, threads) with L over 2-3 orders of magnitude at fixed "
+                   "magnitude of stop; measured: peak live bytes of all operator-new allocations; checked: peak <= B(sqrt(stop), "
+                   "sieve size, threads, backward chunk) and peak(L) not growing with L, forward buffer <= 1024 primes, "
+                   "clear() keeps <= 2 KiB, nothing live after destruction; distinct by the operation")
+    cov["samples"] = [{"trace_line": x[:300]} for x in res["impl_lines"][:3]]
+    groups = {}
+    for (label, o), line in zip(ops, res["impl_lines"]):
+        f = stream_iter.parse_fields(line.split(" => ", 1)[-1])
+        t = o.split()
+        wl, start, L, kib, th = t[1], int(t[2]), int(t[3]), int(t[4]), int(t[5])
+        stop = start + L
+        peak = int(f.get("peak", 0))
+        sq = math.isqrt(stop)
+        # ~8 bytes per sieving prime + bucket pool slack, sieve array and pre-sieve buffers per thread
+        bound = int(24 * sq / max(1.0, math.log(sq) - 1.1)) + th * (3 * kib * 1024 + (1 << 20)) + (2 << 20)
+        if wl == "iterbwd":
+            chunk = max(2 * sq, 524288 * int(math.log(max(10, stop))))
+            bound += int(8 * 1.3 * chunk / (math.log(stop) - 1.1)) + (1 << 20)
+        groups.setdefault(label, []).append((L, peak))
+        if peak > bound:
+            wrong.append((o, f"peak={peak} exceeds bound {bound}"))
+    for label, pts in groups.items():
+        pts.sort()
+        single_thread = all(int(o.split()[5]) == 1 for (l2, o) in ops if l2 == label)
+        if single_thread and len(pts) >= 2 and pts[-1][1] > 1.5 * pts[0][1] + (1 << 20) and pts[-1][1] > 1.25 * pts[-2][1] + (1 << 19):
+            wrong.append((label, f"peak heap grows with the interval length: {pts}"))
+    if res["harness_rc"] != 0:
+        tie_fail.append(("mem", "psv_alloc aborted: " + res["harness_err"][-600:], {"kind": "impl-crash", "stderr": res["harness_err"][-2000:], "key": "crash:mem"}))
+    for o, obs in wrong[:1]:
+        tie_fail.append(("mem", f"memory property violated: {o} -> {obs[:300]}",
+                         {"kind": "impl-vs-spec", "op": o, "observed": obs[:800], "key": f"mem:{o}", "stream": "mem"}))
+    cov["disagreements_checked"] = len(wrong)
+    cov["peaks"] = {k: v for k, v in groups.items()}
+    return cov
+
+def mem_witness(ctx, obligations_failed, tie_fail):
+    tf = []
+    mem_tie(ctx, tf)
+    hit = [t for t in tf if t[2] is not None]
+    return hit[0] if hit else None
+
+SAN_ASSUME = ["every correspondence stream of this framework runs on a build with -fsanitize=address,undefined "
+              "-fno-sanitize-recover=all -DENABLE_ASSERT (bounds-checked Vector/Array): an abort is reported as a violation "
+              "with the operation that triggers it"]
+
+REGISTRY.update({
+    "C13": Prop(
+        targets=["PsProps.C13"],
+        theorems=[("PsProps.C13", "Ps.Props.C13_iterator_fault_safe"), ("PsProps.C13", "Ps.Props.C13_fault_only_on_refill"),
+                  ("PsProps.C13", "Ps.Props.C13_state_after_failure"), ("PsProps.C13", "Ps.Props.C13_c_iterator_failure")],
+        tie=combine(("fiter", fiter_tie), ("wl", wl_tie)), witness=combine_witness(wl_witness),
+        level="proof",
+        assumptions=ITER_ASSUME + ["allocation failures are injected by replacing global operator new (one-shot k-th failure); "
+                                   "failures of malloc/realloc inside malloc_vector (C arrays) and inside std::thread are not injected"],
+        undischarged=["count / generate / nth_prime workloads under faults: decided by enumeration of every allocation index "
+                      "against an oracle (fault enumeration), not by a theorem"],
+        explanation="iterator under arbitrary allocation-failure schedules refines a cursor that may refuse a call without "
+                    "moving (proof); every allocation point of every workload enumerated (tie)"),
+    "C17": Prop(
+        targets=["PsProps.C17"],
+        theorems=[("PsProps.C17", "Ps.Props.C17_prev_chunk_bounded"), ("PsProps.C17", "Ps.Props.C17_next_dist_range"),
+                  ("PsProps.C17", "Ps.Props.C17_reset_releases"), ("PsProps.C17", "Ps.Props.C17_prev_keeps_no_generator")],
+        tie=combine(("mem", mem_tie)), witness=combine_witness(mem_witness),
+        assumptions=["heap bytes are the sum of live operator-new allocations measured by psv_alloc's ledger (malloc inside "
+                     "libstdc++/libc and thread stacks are not counted)"],
+        undischarged=["bytes held by MemoryPool / sieve arrays / sieving-prime vectors: measured (mem stream) against an explicit "
+                      "bound B(sqrt(stop), sieve size, threads), not derived in Lean"],
+        explanation="chunk lengths requested by the iterator are bounded independently of the history (proof); peak heap bytes "
+                    "measured for growing interval lengths (tie)"),
+})
